@@ -121,7 +121,7 @@ def run(ctx):
                 ctx.disagreement('with_extra_marker ~ m_with_extra', {'marker': markers.describe(sess, a), 'extra': name}, pretty(got)[:500], pretty(want)[:500])
         # extra == 'N' matching: normalised membership, invalid names never match, != is the negation
         for name in markers.EXTRAS + markers.BAD_EXTRAS:
-            for active in ([], ['a'], ['a-b'], ['x-y', 'a.b'], ['dev', 'A_b'], ['bob-s', 'bobs']):
+            for active in ([], ['a'], ['a-b'], ['x-y', 'a.b'], ['dev', 'A_b'], ['bob-s', 'bobs'], ['zstd', 'lz4']):
                 x, r = sess.parse("extra == %s" % markers.q(ctx.rng, name))
                 y, _ = sess.parse("%s != extra" % markers.q(ctx.rng, name))
                 if x is None or y is None:
